@@ -58,6 +58,7 @@ func blockAlphabet(c Cfg) []Op {
 		{K: "restart", Dev: true},
 		{K: "merge", Dev: true},
 		{K: "batch", Sub: []Op{{K: "put", Key: "a", VC: "S"}, {K: "put", Key: "b", VC: "B", Arg: 3}}, Dev: true},
+		{K: "batch", Sub: []Op{{K: "put", Key: "a", VC: "S"}, {K: "put", Key: "b", VC: "M"}}, Dev: true}, // a multi-block value as a non-first staged record
 	}
 	for _, delta := range []int{9, 8, 7, 6, 1, 0, -1} {
 		a = append(a, Op{K: "put", Key: "b", VC: "B", Arg: delta, Dev: true})
